@@ -98,13 +98,18 @@ Definition dec_name (s : sx) : option (list part) :=
 Definition enc_sub (o : option str) : sx :=
   match o with Some s => zl s | None => L [A (-1)] end.
 
+(* Fragment.subfragments lists the named submodules of a Module first, then the anonymous ones *)
+Definition is_named (o : option str) : bool := match o with Some _ => true | None => false end.
+Definition amaranth_order (l : list (option str)) : list (option str) :=
+  filter is_named l ++ filter (fun o => negb (is_named o)) l.
+
 Definition run_names (cls : Z) (f : list (list part) -> res (list (option str))) (p : sx) : sx :=
   match p with
   | L [L ns] =>
       match mapM dec_name ns with
       | Some names =>
           match f names with
-          | Ok subs => L [A cls; A 0; L (map enc_sub subs)]
+          | Ok subs => L [A cls; A 0; L (map enc_sub (amaranth_order subs))]
           | Err e => L [A cls; A (-3); A (code_of e)]
           end
       | None => bad 31
